@@ -76,7 +76,7 @@ def fixed_cases(tier):
 
 
 def examples(tier):
-    return 1600 if tier == "quick" else 20000
+    return 1600 if tier == "quick" else 40000
 
 
 def wall_budget(tier):
